@@ -258,6 +258,7 @@ Definition parse_faces (m : meta) (size count : Z) (raw : bytes) (d : data) : ou
     | None => Err "face-unknown-typedef"
     | Some (_, sz, ver) =>
       if negb (size =? sz) then Err "face-size" else
+      if Z.of_nat (length raw) <? size * count then Err "face-short" else
       omap (DFaces ver) (mapM (parse_face ver) (tails_by (Z.to_nat size) (Z.to_nat count) raw))
     end
   | Some _ => Err "face-typedef-type"
